@@ -129,8 +129,7 @@ SHAPE = ['<rect x="5" y="5" width="60" height="40" fill="red" stroke="black"/>',
          '<text x="10" y="40" font-size="20">junk</text>']
 
 SVGTREE_KINDS = ['comment', 'pi', 'ws', 'unknown_elem', 'foreign_elem', 'foreign_style_elem']
-KNOWN_KINDS = ['singular']
-CONV_KINDS = ['display_none', 'def', 'cond', 'zero', 'badts']
+CONV_KINDS = ['display_none', 'def', 'cond', 'zero', 'badts', 'singular']
 ALL_KINDS = SVGTREE_KINDS + CONV_KINDS + ['attr']
 
 
@@ -334,7 +333,7 @@ DEFS = ('<clipPath id="cpOK"><rect width="500" height="500"/></clipPath>'
 
 TS_ROWS = {'': (1, 0, 0, 1, 0, 0), 'translate(3 4)': (1, 0, 0, 1, 3, 4), 'scale(0)': (0, 0, 0, 0, 0, 0), 'translate(0)': (1, 0, 0, 1, 0, 0),
            'matrix(1 2 2 4 0 0)': (1, 2, 2, 4, 0, 0), 'scale(0.00000001)': (1e-8, 0, 0, 1e-8, 0, 0), 'scale(0 3)': (0, 0, 0, 3, 0, 0),
-           'matrix(0 0 0 0 5 5)': (0, 0, 0, 0, 5, 5), 'scale(0.001)': (0.001, 0, 0, 0.001, 0, 0), 'matrix(0 1 0 0 0 0)': (0, 1, 0, 0, 0, 0)}
+           'matrix(0 0 0 0 5 5)': (0, 0, 0, 0, 5, 5), 'matrix(2 1 4 2 9 9)': (2, 1, 4, 2, 9, 9), 'matrix(1 1 1 1.5 0 0)': (1, 1, 1, 1.5, 0, 0), 'scale(0.001)': (0.001, 0, 0, 0.001, 0, 0), 'matrix(0 1 0 0 0 0)': (0, 1, 0, 0, 0, 0)}
 
 
 def positional_docs(rng, n):
@@ -604,7 +603,8 @@ def run(ctx):
                        "inserted ids come from the reserved namespace vf_*; the 64-bit string hash of Cache::all_ids is collision-free on the document's ids",
                        "insertions only where all ancestors are container elements (svg, g, defs, symbol, marker, mask, pattern, clipPath, a); "
                        "never inside text content or switch",
-                       "zero-size shapes with a `filter` attribute are not ignorable (a filter on an empty element can paint)"]
+                       "zero-size shapes with a `filter` attribute are not ignorable (a filter on an empty element can paint)",
+                       "has_valid_transform's determinant test is computed in f64 in the source and idealised as exact in the model"]
     broken = ctx.translate()
     res = ctx.coq_props(extra_targets=['Model/Corr.v'])
     proof_ok = res['ok'] and not broken
@@ -616,7 +616,7 @@ def run(ctx):
         return
 
     files = vlib.corpus_files()
-    wit = [os.path.join(vlib.VERIF, 'corpus', 'witness', f) for f in ('F26.svg', 'C11-foreign-style.svg')]
+    wit = [os.path.join(vlib.VERIF, 'corpus', 'witness', f) for f in ('F26.svg', 'C11-foreign-style.svg', 'C11-singular-transform.svg')]
     nfiles = 800 if quick else len(files)
     sample = rng.sample(files, nfiles) if nfiles < len(files) else list(files)
     # files that always take part: anything about switch / systemLanguage / style / use / nested svg / markers
@@ -774,6 +774,13 @@ def run(ctx):
         if m:
             base = wt[:m.start()] + wt[m.end():]
             cases.append(dict(name=wpath, opts='-', a=hexdoc(base), b_text=wt, items=[(m.start(), 'foreign_style_elem', m.group(0))], base_text=base))
+    wpath = os.path.join(vlib.VERIF, 'corpus', 'witness', 'C11-singular-transform.svg')
+    if os.path.exists(wpath):
+        wt = open(wpath).read()
+        m = re.search(r'\s*<rect [^>]*transform="matrix\(1 2 2 4 300 300\)"/>', wt)
+        if m:
+            base = wt[:m.start()] + wt[m.end():]
+            cases.append(dict(name=wpath, opts='-', a=hexdoc(base), b_text=wt, items=[(m.start(), 'singular', m.group(0))], base_text=base))
     bad = check_pairs(ctx, binp, 'e2e', cases)
     ctx.cov['e2e_cases'] = len(cases)
     ctx.cov['e2e_insertions_by_kind'] = kinds_hist
@@ -792,32 +799,6 @@ def run(ctx):
         oracle_found = True
     if cases:
         ctx.add_sample(dict(op='c11-pair', file=cases[0]['name'], inserted=[s for _, _, s in cases[0]['items'][:4]]))
-
-    # ------------------------------------------------------------------ known class: non-invertible transform that is_valid accepts
-    kc = []
-    wpath = os.path.join(vlib.VERIF, 'corpus', 'witness', 'C11-singular-transform.svg')
-    if os.path.exists(wpath):
-        wt = open(wpath).read()
-        base = re.sub(r'\s*<rect [^>]*transform="matrix\(1 2 2 4 300 300\)"/>', '', wt)
-        kc.append(dict(name=wpath, opts='-', a=hexdoc(base), b_text=wt, items=[(0, 'singular', 'witness')], base_text=base))
-    for f, t in list(texts.items())[:40 if quick else 300]:
-        if positional_css(t):
-            continue
-        bt, items = insert_junk(t, rng, ['singular'], lo=1, hi=3)
-        if bt is not None and items:
-            kc.append(dict(name=f, opts='res=%s' % os.path.dirname(f), a='@' + f, b_text=bt, items=items, base_text=t))
-    kbad = check_pairs(ctx, binp, 'singular', kc)
-    ctx.cov['singular_transform_cases'] = len(kc)
-    ctx.cov['singular_transform_differences'] = len(kbad)
-    for c in kbad[:1]:
-        r = c['result']
-        if 'crash' in r or 'panic' in r:
-            report(ctx, binp, c, 'c11-pair', 'outcome (%s)' % str(r)[:120])
-        else:
-            ctx.known_or_violation('singular_transform_kept',
-                                   "an element with a non-invertible transform that Transform::is_valid accepts stays in the tree (%s)" % c['name'],
-                                   dict(op='c11-pair', opts=c['opts'], doc_a=c['a'] if c['a'].startswith('@') else c['base_text'], doc_b=c['b_text'],
-                                        inserted=[dict(offset=o, kind=k, text=x) for o, k, x in c['items']], result=r))
 
     # ------------------------------------------------------------------ proofs / tie broken and nothing concrete found
     if not proof_ok and not ctx.violations:
